@@ -42,9 +42,10 @@ func WsSubProtos() []NamedProto {
 // World is the set of peers, links and sessions of one case; Close tears
 // everything down and waits for it.
 type World struct {
-	mu    sync.Mutex
-	peers []erpc.Peer
-	links []*Link
+	mu      sync.Mutex
+	peers   []erpc.Peer
+	links   []*Link
+	closers []func()
 }
 
 // Link is one connection between two peers over a memconn pair.
@@ -104,8 +105,14 @@ func (w *World) Close() string {
 	w.mu.Lock()
 	peers := w.peers
 	links := w.links
-	w.peers, w.links = nil, nil
+	closers := w.closers
+	w.peers, w.links, w.closers = nil, nil, nil
 	w.mu.Unlock()
+	defer func() {
+		for _, c := range closers {
+			c()
+		}
+	}()
 	done := make(chan struct{})
 	go func() {
 		var wg sync.WaitGroup
